@@ -17,7 +17,7 @@ pub const META_C06: PropMeta = PropMeta {
 
 pub const META_C07: PropMeta = PropMeta {
     level: "exploration",
-    rule: "same input families as C06, restricted/weighted to size, largesize, count, length, offset and version fields (zero, tiny and huge values at every nesting level). Oracle per call, from an operation-counting stream with a hard budget: open calls (read_header / read_fragment_header) must stay within 24*n + 65536 stream operations and bytes (a loop that does not consume input exhausts every finite budget and is cut off deterministically); every later call within 64 + (n + sample size)/64 operations and n + sample size + 64 bytes; thread CPU time of any call <= 1 s for these inputs (n <= 200 KiB; normal: microseconds), confirmed by a second execution. A worker that stops making progress is killed by the supervisor and the case re-confirmed alone. Non-trivial = a size/count/length/offset/version field holds a value that is not its true value and the parser performed >= 4 operations. Distinct = content hash.",
+    rule: "same input families as C06, restricted/weighted to size, largesize, count, length, offset and version fields (zero, tiny and huge values at every nesting level). Oracle per call, from an operation-counting stream with a hard budget: open calls (read_header / read_fragment_header) must stay within 24*n + 65536 stream operations and bytes (a loop that does not consume input exhausts every finite budget and is cut off deterministically); every later call within 64 + (n + sample size)/64 operations and n + sample size + 64 bytes; thread CPU time of any call <= 1 s for these inputs (n <= 2 MiB; normal: microseconds), confirmed by a second execution; 'big-tables': every sample-table box in turn with 100 000 entries in ascending / descending / constant / alternating / scrambled order, where read_header may not use more than 0.2 s AND 25 x the CPU time of the ascending-order file of the same length (re-measured). A worker that stops making progress is killed by the supervisor and the case re-confirmed alone. Non-trivial = a size/count/length/offset/version field holds a value that is not its true value and the parser performed >= 4 operations. Distinct = content hash.",
     assumptions: &["CPU-linearity is only a blow-up detector (>= 10^5 x normal cost)"],
 };
 
@@ -89,8 +89,46 @@ fn c07_call(c: &CallRec) -> Option<Failure> {
     None
 }
 
+/// CPU time of read_header on `bytes` (thread CPU clock, best of two runs), guarded
+fn open_cpu_ns(bytes: &[u8]) -> u64 {
+    let mut best = u64::MAX;
+    for _ in 0..2 {
+        let b = bytes.to_vec();
+        let n = b.len() as u64;
+        let t0 = driver::thread_cpu_ns();
+        let _ = crate::engine::guard(move || mp4::Mp4Reader::read_header(std::io::Cursor::new(b), n).map(|_| ()));
+        best = best.min(driver::thread_cpu_ns().saturating_sub(t0));
+    }
+    best
+}
+
+pub const SUPERLINEAR_FACTOR: u64 = 25;
+pub const SUPERLINEAR_FLOOR_NS: u64 = 200_000_000;
+
+/// big-tables stage: the same file with the table in another order must not cost a large multiple
+/// of the ascending-order file (the two have the same length n, so a linear bound covers both)
+fn superlinear(case: &AdvCase) -> Option<Failure> {
+    let base = case.baseline.as_ref()?;
+    let t = open_cpu_ns(&case.bytes);
+    if t <= SUPERLINEAR_FLOOR_NS {
+        return None;
+    }
+    let t0 = open_cpu_ns(base).max(2_000_000);
+    if t > SUPERLINEAR_FACTOR * t0 {
+        // once more, to rule out a disturbance
+        let (t, t0) = (open_cpu_ns(&case.bytes), open_cpu_ns(base).max(2_000_000));
+        if t > SUPERLINEAR_FLOOR_NS && t > SUPERLINEAR_FACTOR * t0 {
+            return Some(Failure::new("c07:cpu-superlinear@read_header", format!("read_header used {:.3} s of CPU on a {}-byte input, {} x the {:.3} s of the same file with that table in ascending order ({})", t as f64 / 1e9, case.bytes.len(), t / t0, t0 as f64 / 1e9, case.desc)));
+        }
+    }
+    None
+}
+
 pub fn oracle_c07(ctx: &mut Ctx, case: &AdvCase, ex: &Exercise) -> Check {
     let mut fails = Vec::new();
+    if let Some(f) = superlinear(case) {
+        fails.push(f);
+    }
     for c in &ex.calls {
         if let Some(f) = c07_call(c) {
             if f.sig.starts_with("c07:cpu@") {
@@ -196,7 +234,7 @@ pub fn run_adv(ctx: &mut Ctx, oracle: Oracle, weight: fn(FieldKind) -> u32, nt_k
     let strat = adv::havoc_strategy().prop_map(move |(bf, ops)| {
         let bi = (bf as usize * bs.len()) >> 16;
         let bytes = adv::apply_havoc(&bs[bi], &ops);
-        AdvCase { bytes, desc: format!("{}: havoc x{}", bs[bi].name, ops.len()), touched: vec![], base: bi }
+        AdvCase { bytes, desc: format!("{}: havoc x{}", bs[bi].name, ops.len()), touched: vec![], base: bi, baseline: None }
     });
     let bases3 = bases.clone();
     ctx.run_prop(strat, cases, |ctx, case| {
@@ -234,7 +272,7 @@ fn structure_strategy() -> impl Strategy<Value = AdvCase> {
             m.meta = Some(me);
         }
         let b = crate::refmp4::movie::build(&m);
-        AdvCase { bytes: b.bytes, desc: "generated valid structure".to_string(), touched: vec![], base: 0 }
+        AdvCase { bytes: b.bytes, desc: "generated valid structure".to_string(), touched: vec![], base: 0, baseline: None }
     })
 }
 
